@@ -97,7 +97,7 @@ Lookup(r) ==
                 hit == {d \in cached[k][e] : d.x \in S} IN
             IF missing = {}
               THEN rq' = [rq EXCEPT ![r].st = "ret", ![r].full = TRUE, ![r].hit = hit, ![r].hmeta = meta[k][e]]
-              ELSE rq' = [rq EXCEPT ![r].st = "fetch", ![r].hit = hit, ![r].hmeta = meta[k][e], ![r].missing = missing,
+              ELSE rq' = [rq EXCEPT ![r].st = "fetch", ![r].hit = hit, ![r].hmeta = IF OnFetchError = "error" THEN NoMeta ELSE meta[k][e], ![r].missing = missing,
                                     ![r].ep = TRUE]
        ELSE rq' = [rq EXCEPT ![r].st = "fetch", ![r].missing = S]
   /\ UNCHANGED <<asg, tv, cvars, gen, mt, floor, nfetch, dirty, outs, last>>
